@@ -84,3 +84,48 @@ Section WT.
   Definition wt_prog (p : prog) : bool :=
     match p with PDfg ins body => match wt_region body ins [] with Some _ => true | None => false end end.
 End WT.
+
+(* ------------------------------------------------------------------ add_state_order goes forward *)
+(* ord_prog p: statement ids are globally unique, and every add_state_order(src, dst) joins two nodes of the
+   region it is written in, in program order: Input -> a statement of this region, a statement of this region
+   -> a later statement of this region, anything but Output -> Output.  (hugr-py accepts any pair of nodes;
+   an order edge against the program order can close a cycle.)
+   scope: the ids of the statements of the current region so far, most recent first; used: all ids so far. *)
+Fixpoint before (s s' : sid) (l : list sid) : bool :=
+  match l with
+  | [] => false
+  | x :: r => if x =? s' then memN s r else before s s' r
+  end.
+Definition order_fwd (scope : list sid) (src dst : nref) : bool :=
+  match src, dst with
+  | RIn, RStmt s' => memN s' scope
+  | RIn, ROut => true
+  | RStmt s, ROut => memN s scope
+  | RStmt s, RStmt s' => before s s' scope
+  | _, _ => false
+  end.
+
+Fixpoint ord_stmt (s : stmt) (scope used : list sid) {struct s} : option (list sid * list sid) :=
+  match s with
+  | SOp id _ _ _ => if memN id used then None else Some (id :: scope, id :: used)
+  | SLoad id _ _ _ => if memN id used then None else Some (id :: scope, id :: used)
+  | SNested id _ body _ =>
+      if memN id used then None
+      else match ord_region body (id :: used) with
+           | Some used' => Some (id :: scope, used')
+           | None => None
+           end
+  | SOrder src dst => if order_fwd scope src dst then Some (scope, used) else None
+  end
+with ord_region (r : region) (used : list sid) {struct r} : option (list sid) :=
+  match r with
+  | Region _ body _ => match ord_stmts body [] used with Some (_, used') => Some used' | None => None end
+  end
+with ord_stmts (l : stmts) (scope used : list sid) {struct l} : option (list sid * list sid) :=
+  match l with
+  | SNil => Some (scope, used)
+  | SCons s r => match ord_stmt s scope used with Some (sc, us) => ord_stmts r sc us | None => None end
+  end.
+
+Definition ord_prog (p : prog) : bool :=
+  match p with PDfg _ body => match ord_region body [] with Some _ => true | None => false end end.
